@@ -66,7 +66,7 @@ package dispatch
 //@   assigns deref(counter)
 
 //@ func newRoute
-//@   props C07 C06 C15
+//@   props C07 C06 C15 C16
 //@   requires cr != nil && counter != nil
 //@   maypanic
 //@   ensures [node] result != nil && fresh(result) && result.parent == parent && result.Continue == cr.Continue
@@ -430,3 +430,27 @@ package dispatch
 //@   at call newRoute assert [fresh-counter-from-zero] arg0 == cr && arg1 == parent && deref(arg2) == 0
 //@   ensures [the-tree-built] result == ret("newRoute")
 //@   noeffect newRoute
+
+// ---- C07 / C06: a group's route labels are rendered from its current alerts and cached per invalidation generation:
+// a cached rendering is served only for the generation it was made for, read *before* the alerts are listed.
+//@ func (*aggrGroup).RouteLabels
+//@   props C07 C06
+//@   nosafe
+//@   at call store.Alerts).List assert [generation-read-before-the-alerts] count("Uint64).Load") == 1 && count("]).Load[") == 1
+//@   at call aggrGroup).renderRouteLabels assert [rendered-against-the-group_s-current-alerts] arg1 == ret("store.Alerts).List") && len(arg1) > 0
+//@   ensures [a-cached-rendering-only-for-its-own-generation] !called("store.Alerts).List") ==> ret("Load[") != nil && ret("Load[").gen == ret("Uint64).Load") && result == ret("Load[").labels
+//@   ensures [a-new-rendering-is-returned] called("aggrGroup).renderRouteLabels") ==> result == ret("aggrGroup).renderRouteLabels")
+//@   ensures [nothing-to-render-for-an-empty-group] called("store.Alerts).List") && len(ret("store.Alerts).List")) == 0 ==> !called("aggrGroup).renderRouteLabels") && len(result) == 0
+//@   noeffect store.Alerts).List aggrGroup).renderRouteLabels
+
+// ---- C06 / C05 / C18: the dispatcher works on exactly what it was given: the provider it subscribes to, the routing
+// tree, the pipeline its groups flush through, the group marker, the limits (none = unlimited), at least two and at
+// most eight ingestion workers.
+//@ func NewDispatcher
+//@   props C06 C05 C14
+//@   nosafe
+//@   ensures [wired-as-given] result != nil && fresh(result) && result.alerts == alerts && result.route == route && result.stage == stage && result.marker == marker
+//@             && result.maintenanceInterval == maintenanceInterval && result.tmpl == tmpl && result.recorder == recorder
+//@   ensures [limits-as-given-or-none] limits != nil ==> result.limits == limits
+//@   ensures [two-to-eight-ingestion-workers] 2 <= result.concurrency && result.concurrency <= 8
+//@   ensures [not-yet-loaded] result.loaded != nil
